@@ -61,6 +61,11 @@ def build_manager(a):
         g.set_geometry_constraints_near_square(b=a.get("b", 6.0), length=a.get("length", 30.0))
     elif geom == "rectangle":
         g.set_geometry_constraints_rectangle(length=a.get("length", 30.0), width=a.get("width", 18.0), b_min=3.0, b_max=9.0)
+    elif geom == "rowwise":
+        side = a.get("length", 50.0)
+        g.set_geometry_constraints_rowwise(perimeter_spacing_ratio=a.get("perimeter"), max_spacing=a.get("max_spacing", 12.0), min_spacing=a.get("min_spacing", 7.0), spacing_step=0.5,
+                                           max_rotation=0.0, min_rotation=-45.0, rotate_step=15.0,
+                                           property_boundary=[[5.0, 5.0], [5.0 + side, 5.0], [5.0 + side, 5.0 + side], [5.0, 5.0 + side]], no_go_boundaries=[])
     g.set_design(flow_rate=a.get("flow", 0.3), flow_type_str=a.get("flow_type", "borehole"))
     return g
 
@@ -114,6 +119,8 @@ _DESIGN_CASES = [
     {"kind": "constant", "scale": 1.0e2, "cont": True, "length": 12.0, "months": 12},
     {"kind": "constant", "scale": 1.0e6, "cont": True, "length": 12.0, "months": 12},
     {"kind": "balanced", "scale": 2.0e4, "cont": False, "length": 12.0, "months": 12},
+    # RowWise, bracketed outcome (dense field feasible, sparse field not): the exhaustive stage sizes several candidates below the maximum height
+    {"kind": "balanced", "scale": 1.6e5, "cont": False, "geom": "rowwise", "length": 50.0, "months": 12},
     {"kind": "heating", "scale": 1.2e4, "cont": False, "length": 18.0, "months": 18, "flow_type": "system"},
     {"kind": "cooling", "scale": 3.0e4, "cont": False, "length": 18.0, "months": 24, "geom": "rectangle"},
     {"kind": "constant", "scale": 1.0e6, "cont": True, "length": 18.0, "months": 12, "cap": 5},
